@@ -448,7 +448,7 @@ def build(tier):
     return CheckSpec(
         [
             Sub("table", run_case, cases=cases_table, exhaustive=True),
-            Sub("sequences", run_case, strategy=_sequence, budget={"quick": 8000, "thorough": 60000}, max_wall={"quick": 50, "thorough": 1800}),
+            Sub("sequences", run_case, strategy=_sequence, budget={"quick": 8000, "thorough": 300000}, max_wall={"quick": 50, "thorough": 3600}),
         ],
         RULE,
         assumptions=[
